@@ -11,7 +11,7 @@ var commonAssumptions = []string{
 }
 
 var cryptoAssumptions = []string{
-	"idealised cryptography: SHA-256/SHA3 are collision-free (equal digests iff equal input streams; concrete streams use the real SHA-256), ECDSA is existentially unforgeable and non-deterministic (crypto/ecdsa.Sign/Verify, GenerateKey and crypto/rand are replaced by the ideal scheme; the sim wallet and sim channel backend code around them is executed as is)",
+	"idealised cryptography: SHA-256/SHA3 are collision-free (equal digests iff equal input streams, never the all-zero digest; concrete streams use the real SHA-256), ECDSA is existentially unforgeable and non-deterministic (crypto/ecdsa.Sign/Verify, GenerateKey and crypto/rand are replaced by the ideal scheme; the sim wallet and sim channel backend code around them is executed as is)",
 }
 
 func checkDefs() map[string]CheckDef {
@@ -33,6 +33,20 @@ func checkDefs() map[string]CheckDef {
 		Assumptions: append(append([]string{}, commonAssumptions...), cryptoAssumptions...),
 		BoundsText:  "independent-shape pairs: SubAlloc (0..2 balances, index map 0..2), Balances (0..2 x 0..2, rectangular), []SubAlloc (0..2 entries), Allocation (1 asset, 1..2 participants, 0..1 locked, symbolic backend id); single-field variants of a State (1 asset [2 in thorough], 1..2 participants, 0..1 locked with nil/empty/full index map, NoApp or MockApp with symbolic definition and data): every field replaced by a fresh arbitrary value, plus dimension changes; signatures: 2 signers x 2 verifiers over the variant pairs. Amounts: quick K=1 (pair harnesses: all lengths 0..1 byte; state/sig harnesses: exactly 1 byte), thorough: all lengths 0..1 and exact 2 bytes. All 32 ID bytes, versions, flags, asset ids symbolic.",
 		Outside:     []string{"larger dimensions", "ragged (non-rectangular) balance matrices", "amounts of more than K bytes (BigInt codec for every length 0..128 is covered by C14's unit lemma)"},
+	})
+	add(CheckDef{
+		ID: "C17",
+		Obligations: []Obligation{
+			{Pkg: "internal/verifh/c17", Harness: "VerifC17Injective", Quick: map[string]int{"K": 1, "exact": 1, "extraParts": 1}, Thor: map[string]int{"exact": 0, "extraParts": 2}, TV: 10},
+			{Pkg: "internal/verifh/c17", Harness: "VerifC17Injective", Quick: map[string]int{"K": 2, "exact": 1, "extraParts": 2}, OnlyT: true},
+			{Pkg: "internal/verifh/c17", Harness: "VerifC17Independent", Quick: map[string]int{"K": 1, "exact": 1}, Thor: map[string]int{"K": 2}, TV: 10},
+			{Pkg: "internal/verifh/c17", Harness: "VerifC17CloneRoundTrip", Quick: map[string]int{"K": 1, "exact": 1}, Thor: map[string]int{"exact": 0}, TV: 10},
+			{Pkg: "internal/verifh/c17", Harness: "VerifC17Validate", TV: 10},
+			{Pkg: "internal/verifh/c17", Harness: "VerifC17StateID", Quick: map[string]int{"K": 1, "exact": 1}, TV: 5},
+		},
+		Assumptions: append(append([]string{}, commonAssumptions...), cryptoAssumptions...),
+		BoundsText:  "parameter sets with 2 participants (3 in the variant family, 2..3 base in thorough), sim addresses with symbolic coordinates of K bytes (quick: exactly 1 byte; thorough: 0..1 bytes and exactly 2 bytes), nonce K bytes, symbolic challenge duration (non-zero), flags, app in {none, MockApp with symbolic definition}, aux bytes 0 and 255 symbolic; pairs: every single-field variant (incl. participant swap, one participant more) and independent pairs; validation boundaries concrete: 0,1,1024,1025 participants, nonce of exactly 32 and 33 bytes, duration symbolic",
+		Outside:     []string{"participants with several addresses (map iteration order)", "backends other than sim", "more than 3 participants in the injectivity obligations"},
 	})
 	return defs
 }
